@@ -188,4 +188,17 @@ def readMappingShape : List Bytes := [b!"if (url!=\"\") {req,err:=http.NewReques
     lock table in between would register as a waiter of a key nobody will notify again (seeded change C12-m6). -/
 def readerNotifierShape : List Bytes := [b!"if (c.closeNotifier==nil) {return }", b!"for {c.logger.Debugf(\"readerNotifier (%p) waiting for Key\",c.closeNotifier);verifPointS(\"notifier.idle\",\"\");ki:=<-*c.closeNotifier;verifPointS(\"notifier.got\",ki.Key.FsName());k:=ki.Key;rk:=k.FsName();c.logger.Debugf(\"readerNotifier (%p) got Key: %v / %v\",c.closeNotifier,(k.host+k.path),rk);c.waitingReadersLock.Lock();if readers,exists:=c.waitingReaders[rk]; exists {c.logger.Debugf(\"readerNotifier (%p) notifying %v (%p) with: %v / %v\",c.closeNotifier,len(readers),&c.waitingReaders,(k.host+k.path),rk);range i,ct:readers{c.logger.Debugf(\"readerNotifier notifying %v, ch (%p)\",i,ct.ch);*ct.ch<-ki};delete(c.waitingReaders,rk)} else {c.logger.Debugf(\"readerNotifier (%p) nothing to notify: %v / %v\",c.closeNotifier,(k.host+k.path),rk)};c.waitingReadersLock.Unlock();verifPointS(\"notifier.done\",rk)}"]
 
+/-- C03 (and the executor model's retry gate): which requests are repeated after a failed attempt and buffered for a
+    retry_rule - every method but POST, whatever the body (both callers, routeRequest and performRequest, ask this) -/
+def retryableShape : List Bytes := [b!"return (req.Method!=\"POST\")"]
+
+/-- C05: how an error becomes a response (the error rows of every system model): a user error is its code with the JSON
+    message, a failed client write (`readfrom`) is nothing at all, everything else a bare 500 - in particular the error of
+    a cancelled request context is ANSWERED (stream halfclose) -/
+def writeErrorShape : List Bytes := [b!"typeswitch err:=<*ast.TypeAssertExpr> {case *usererror.UserError:jsonmap:=err.JSON();w.Header().Set(\"Content-Type\",\"application/json\");w.WriteHeader(err.Code);if err:=json.NewEncoder(w).Encode(jsonmap); (err!=nil) {panic(err)}|case *net.OpError:if (err.Op!=\"readfrom\") {w.WriteHeader(500)}|case :w.WriteHeader(500)}"]
+
+/-- C01 C02: the transport NewRouter builds: net/http's Transport over the standard library's dialer (no address is
+    remembered outside net/http's own per-authority connection pool); stream wire drives it -/
+def newRouterShape : List Bytes := [b!"transport:=&{Proxy:http.ProxyFromEnvironment,DialContext:&{Timeout:(15*time.Second),KeepAlive:(30*time.Second),DualStack:true,Resolver:&{PreferGo:true}}.DialContext,ForceAttemptHTTP2:true,MaxConnsPerHost:1000,MaxIdleConns:1000,IdleConnTimeout:(10*time.Second),TLSHandshakeTimeout:(10*time.Second),ExpectContinueTimeout:(1*time.Second),ResponseHeaderTimeout:(20*time.Second),MaxIdleConnsPerHost:1000}", b!"return &{rules:rules,logger:logger,config:conf,requestPerformer:&{roundTripper:transport}}"]
+
 end Spec
